@@ -10,6 +10,9 @@ From RV Require Import Model.Blend8.
 From RV Require Import Model.ClipMask.
 From RV Require Import Proofs.ByteSweep.
 From RV Require Import Proofs.ClipMask.
+From RV Require Import Model.RenderPrims.
+From RV Require Import Gen.LeafRender.
+From RV Require Import Proofs.ClipNest.
 Local Open Scope Q_scope.
 
 (* clip, mask and opacity all multiply premultiplied channels by a factor in [0,1] *)
@@ -94,6 +97,15 @@ Theorem C15_mask_code_shape :
   mask_alpha_kept = true /\ group_order_filter_clip_mask_opacity = true.
 Proof. repeat split; reflexivity. Qed.
 Print Assumptions C15_mask_code_shape.
+
+(* nested isolation: the clamp box a layer hands to the groups inside it (source-derived layer_child_max of render_group) is the
+   parent's box in the LAYER's frame: layer pixel (x, y) is inside it iff canvas-frame pixel (x + origin) is inside the parent's *)
+Theorem C15_nested_bounds_in_layer_frame : forall maxb ib o,
+  irect_translate maxb (- ix ib) (- iy ib) = Some o ->
+  layer_child_max maxb ib = o /\
+  forall x y, pix_in (layer_child_max maxb ib) x y <-> pix_in maxb (x + ix ib)%Z (y + iy ib)%Z.
+Proof. exact nested_bounds_in_layer_frame. Qed.
+Print Assumptions C15_nested_bounds_in_layer_frame.
 
 (* non-vacuity *)
 Example C15_ex_half : clip_factor [(false, 1 # 2); (false, 1 # 2)] 1 == 3 # 4.
